@@ -1,14 +1,16 @@
+\* Exhaustive check of ReplDiffMC (quick tier, configuration 'all-3ids').
+\* checks/c19.py writes one such file per configuration (tables MC / GEN there); this is the first quick-tier one.
 SPECIFICATION Spec
 CONSTANTS
   Kinds = {"acl", "config", "fed"}
-  Ids = {1, 2}
+  Ids = {1, 2, 3}
   Cs = {1, 2}
-  LegacyCs = {1, 2}
-  Mis = {1, 2, 3}
-  Lasts = {0, 1, 2, 3}
-  MaxLegacyL = 1
-  MaxLegacyR = 1
-  LoIds = {4}
+  LegacyCs = {1}
+  Mis = {1, 2}
+  Lasts = {0, 1}
+  MaxLegacyL = 0
+  MaxLegacyR = 0
+  LoIds = {}
   Unhashed = FALSE
   Perms = FALSE
 INVARIANTS InvEnv InvCursor InvSorted InvRoundOK InvRunOK
